@@ -846,6 +846,7 @@ func (e *Exec) block(b *ssa.BasicBlock, pred *ssa.BasicBlock, st *State) {
 		nn := e.fresh("nextRef", "Int")
 		st.assume = append(st.assume, fmt.Sprintf("(>= %s %s)", nn, st.nextRef))
 		st.nextRef = nn
+		e.havocLocals(st, b)
 		st.assume = append(st.assume, e.autoInv(env, b)...)
 		st.assume = append(st.assume, spec.Inv(env)...)
 	} else {
@@ -861,6 +862,53 @@ func (e *Exec) block(b *ssa.BasicBlock, pred *ssa.BasicBlock, st *State) {
 		}
 	}
 	e.runFrom(st, b, 0)
+}
+
+// havocLocals: local struct variables and local arrays that are kept as value terms (not in a heap), were declared
+// before the loop and are written inside it, get an arbitrary value at the loop head.
+func (e *Exec) havocLocals(st *State, h *ssa.BasicBlock) {
+	seen := map[*ssa.Alloc]bool{}
+	var order []*ssa.Alloc
+	for _, b := range e.fn.Blocks {
+		if !e.inLoop[h.Index][b.Index] {
+			continue
+		}
+		for _, ins := range b.Instrs {
+			x, ok := ins.(*ssa.Store)
+			if !ok {
+				continue
+			}
+			a := x.Addr
+			for {
+				if fa, ok := a.(*ssa.FieldAddr); ok {
+					a = fa.X
+				} else if ia, ok := a.(*ssa.IndexAddr); ok {
+					a = ia.X
+				} else {
+					break
+				}
+			}
+			al, ok := a.(*ssa.Alloc)
+			if !ok || seen[al] || al.Block() == nil || e.inLoop[h.Index][al.Block().Index] {
+				continue
+			}
+			seen[al] = true
+			order = append(order, al)
+		}
+	}
+	for _, al := range order {
+		el := al.Type().Underlying().(*types.Pointer).Elem()
+		if _, ok := st.lobj[al]; ok {
+			t := e.fresh("local_"+sanitize(al.Comment), e.sorts.SortOf(el))
+			st.lobj[al] = t
+			st.assume = append(st.assume, e.wellFormedCur(t, el, st.nextRef)...)
+		}
+		if la, ok := st.larr[al]; ok {
+			if arr, ok := el.Underlying().(*types.Array); ok {
+				la.Term = e.fresh("localarr_"+sanitize(al.Comment), "(Array Int "+e.sorts.SortOf(arr.Elem())+")")
+			}
+		}
+	}
 }
 
 // abstractLoop: the loop is not executed. Everything it may change is havoced, its clauses are ASSUMED, and execution
@@ -883,6 +931,7 @@ func (e *Exec) abstractLoop(st *State, b *ssa.BasicBlock, incoming map[*ssa.Phi]
 	nn := e.fresh("nextRef", "Int")
 	st.assume = append(st.assume, fmt.Sprintf("(>= %s %s)", nn, st.nextRef))
 	st.nextRef = nn
+	e.havocLocals(st, b)
 	st.assume = append(st.assume, e.autoInv(env, b)...)
 	c := e.newCtx(st)
 	c.header = b
